@@ -167,7 +167,7 @@ def countingPass {S σ : Type} (sites : S → List σ) (rw : σ → S → Option
   (out.1, out.2 != 0)
 
 /-! ### RemoveInitializersFromInputsPass / AddInitializersToInputsPass
-(constant_manipulation.py 207-245) as instances of `countingPass` -/
+(constant_manipulation.py 214-262) as instances of `countingPass` -/
 namespace InitInputs
 
 /-- one graph: its inputs and its initializer values (value identities) -/
@@ -176,14 +176,14 @@ structure Gr where
   inits : List Nat
   deriving DecidableEq, Repr, Inhabited
 
-/-- `model.graphs()` -/
+/-- the graphs the passes visit: since the fix "only touch the main graph" this is `[model.graph]` -/
 abbrev St := List Gr
 
 def sitesOf (sel : Gr → List Nat) : List Gr → Nat → List (Nat × Nat)
   | [], _ => []
   | g :: gs, k => (sel g).map (fun x => (k, x)) ++ sitesOf sel gs (k + 1)
 
-/-- every input occurrence of every graph is looked at once (lines 216-222) -/
+/-- every input occurrence of every graph is looked at once (lines 226-235) -/
 def rmSites (s : St) : List (Nat × Nat) := sitesOf (·.inputs) s 0
 
 /-- an input (still listed) that is an initializer is dropped from the inputs (`count += 1`) -/
@@ -197,7 +197,7 @@ def rmRw (site : Nat × Nat) (s : St) : Option St :=
 
 def removeInitializersFromInputs (s : St) : St × Bool := countingPass rmSites rmRw s
 
-/-- every initializer of every graph is looked at once (lines 237-242) -/
+/-- every initializer of every graph is looked at once (lines 250-257) -/
 def addSites (s : St) : List (Nat × Nat) := sitesOf (·.inits) s 0
 
 /-- an initializer that is not an input is appended to the inputs (`count += 1`) -/
